@@ -160,4 +160,108 @@ theorem next_down_total_f32 (lib : Libm) (x : Nat) (m : Nat) (e : Int) (dx : dec
   rw [hfm] at h2 h3
   exact ⟨o, h1, h2, by simpa using h3⟩
 
+lemma pow15_le_Lmaxf16 : (2 : ℚ) ^ (15 : ℤ) ≤ Lmax binary16 := by
+  have h := pow_kmax_le_Lmax binary16 ⟨by decide, by decide⟩
+  have hk : kmax binary16 = 15 := by decide +kernel
+  have e : (2 : ℚ) ^ (15 : ℤ) = 2 ^ kmax binary16 := congrArg (fun k : ℤ => (2 : ℚ) ^ k) hk.symm
+  rw [e]; exact h
+
+/-- **`is_power_of_two` exact on bit patterns, unconditional** (float16): for EVERY pattern of a normal number ±m·2^e with
+|x| ≤ 2^3 the traced program returns 1 if x is a power of two and 0 otherwise — the three finiteness hypotheses of
+`is_power_of_two_bit_exact_f16` are proved from the bound (`mul_finite`, `sub_finite`). -/
+theorem is_power_of_two_total_f16 (lib : Libm) (x : Nat) (s : Bool) (m : Nat) (e : Int)
+    (dx : decode binary16 x = .fin s m e) (nm : 2 ^ 10 ≤ m) (bx : |valQ s m e| ≤ 2 ^ (3 : ℤ)) :
+    is_power_of_two_f16.eval lib [x] = some [b2n (decide (m = 2 ^ 10))] := by
+  have hf : WF binary16 := ⟨by decide, by decide⟩
+  have hr := isRN_rne (qf binary16 hf.hp)
+  have dP : decode binary16 25601 = .fin false 1025 0 := by decide +kernel
+  have dQ : decode binary16 25600 = .fin false 1024 0 := by decide +kernel
+  have hP : valQ false 1025 0 = 2 ^ 10 + 1 := by simp [valQ]; norm_num
+  have hQ : valQ false 1024 0 = 2 ^ 10 := by simp [valQ]; norm_num
+  have hem : (qf binary16 hf.hp).emin ≤ (14 : ℤ) := by show binary16.emin ≤ 14; decide
+  have hemK : (qf binary16 hf.hp).emin ≤ (15 : ℤ) := by show binary16.emin ≤ 15; decide
+  have eK1 : (2 : ℚ) ^ (14 : ℤ) = 2 ^ (11 : ℤ) * 2 ^ (3 : ℤ) := by rw [← zpow_add₀ (by norm_num : (2 : ℚ) ≠ 0)]; norm_num
+  have bL : |valQ false 1025 0 * valQ s m e| ≤ 2 ^ (14 : ℤ) := by
+    rw [hP, abs_mul, eK1]
+    apply mul_le_mul _ bx (abs_nonneg _) (by positivity)
+    rw [abs_of_pos (by norm_num)]; norm_num
+  have bR : |valQ false 1024 0 * valQ s m e| ≤ 2 ^ (14 : ℤ) := by
+    rw [hQ, abs_mul, eK1]
+    apply mul_le_mul _ bx (abs_nonneg _) (by positivity)
+    rw [abs_of_pos (by norm_num)]; norm_num
+  have rL := abs_rn_le_pow hr hem bL
+  have rR := abs_rn_le_pow hr hem bR
+  have hK1 : (2 : ℚ) ^ (14 : ℤ) ≤ Lmax binary16 := le_trans (zpow_le_zpow_right₀ (by norm_num) (by norm_num)) pow15_le_Lmaxf16
+  have fL := mul_finite binary16 hf 25601 x false s 1025 m 0 e dP dx (le_trans rL hK1)
+  have fR := mul_finite binary16 hf 25600 x false s 1024 m 0 e dQ dx (le_trans rR hK1)
+  obtain ⟨sL, mL, eL, dL⟩ := finite_decode binary16 _ fL
+  obtain ⟨sR, mR, eR, dR⟩ := finite_decode binary16 _ fR
+  have vL := mul_correct binary16 hf _ x false s 1025 m 0 e dP dx fL
+  have vR := mul_correct binary16 hf _ x false s 1024 m 0 e dQ dx fR
+  have eL' : valQ sL mL eL = rne (qf binary16 hf.hp) (valQ false 1025 0 * valQ s m e) := by
+    have := toQ_fin binary16 _ sL mL eL dL; rw [vL] at this; exact (Option.some.inj this).symm
+  have eR' : valQ sR mR eR = rne (qf binary16 hf.hp) (valQ false 1024 0 * valQ s m e) := by
+    have := toQ_fin binary16 _ sR mR eR dR; rw [vR] at this; exact (Option.some.inj this).symm
+  have bD : |valQ sL mL eL - valQ sR mR eR| ≤ 2 ^ (15 : ℤ) := by
+    rw [eL', eR']
+    have eK : (2 : ℚ) ^ (15 : ℤ) = 2 ^ (14 : ℤ) + 2 ^ (14 : ℤ) := by
+      rw [show (15 : ℤ) = 14 + 1 by norm_num, zpow_add₀ (by norm_num : (2 : ℚ) ≠ 0), zpow_one]; ring
+    rw [eK]
+    exact le_trans (abs_sub _ _) (add_le_add rL rR)
+  have fD := sub_finite binary16 hf _ _ sL sR mL mR eL eR dL dR (le_trans (abs_rn_le_pow hr hemK bD) pow15_le_Lmaxf16)
+  exact is_power_of_two_bit_exact_f16 lib x s m e dx nm fL fR fD
+
+
+lemma pow1023_le_Lmaxf64 : (2 : ℚ) ^ (1023 : ℤ) ≤ Lmax binary64 := by
+  have h := pow_kmax_le_Lmax binary64 ⟨by decide, by decide⟩
+  have hk : kmax binary64 = 1023 := by decide +kernel
+  have e : (2 : ℚ) ^ (1023 : ℤ) = 2 ^ kmax binary64 := congrArg (fun k : ℤ => (2 : ℚ) ^ k) hk.symm
+  rw [e]; exact h
+
+/-- **`is_power_of_two` exact on bit patterns, unconditional** (float64): for EVERY pattern of a normal number ±m·2^e with
+|x| ≤ 2^969 the traced program returns 1 if x is a power of two and 0 otherwise — the three finiteness hypotheses of
+`is_power_of_two_bit_exact_f64` are proved from the bound (`mul_finite`, `sub_finite`). -/
+theorem is_power_of_two_total_f64 (lib : Libm) (x : Nat) (s : Bool) (m : Nat) (e : Int)
+    (dx : decode binary64 x = .fin s m e) (nm : 2 ^ 52 ≤ m) (bx : |valQ s m e| ≤ 2 ^ (969 : ℤ)) :
+    is_power_of_two_f64.eval lib [x] = some [b2n (decide (m = 2 ^ 52))] := by
+  have hf : WF binary64 := ⟨by decide, by decide⟩
+  have hr := isRN_rne (qf binary64 hf.hp)
+  have dP : decode binary64 4841369599423283201 = .fin false 4503599627370497 0 := by decide +kernel
+  have dQ : decode binary64 4841369599423283200 = .fin false 4503599627370496 0 := by decide +kernel
+  have hP : valQ false 4503599627370497 0 = 2 ^ 52 + 1 := by simp [valQ]; norm_num
+  have hQ : valQ false 4503599627370496 0 = 2 ^ 52 := by simp [valQ]; norm_num
+  have hem : (qf binary64 hf.hp).emin ≤ (1022 : ℤ) := by show binary64.emin ≤ 1022; decide
+  have hemK : (qf binary64 hf.hp).emin ≤ (1023 : ℤ) := by show binary64.emin ≤ 1023; decide
+  have eK1 : (2 : ℚ) ^ (1022 : ℤ) = 2 ^ (53 : ℤ) * 2 ^ (969 : ℤ) := by rw [← zpow_add₀ (by norm_num : (2 : ℚ) ≠ 0)]; norm_num
+  have bL : |valQ false 4503599627370497 0 * valQ s m e| ≤ 2 ^ (1022 : ℤ) := by
+    rw [hP, abs_mul, eK1]
+    apply mul_le_mul _ bx (abs_nonneg _) (by positivity)
+    rw [abs_of_pos (by norm_num)]; norm_num
+  have bR : |valQ false 4503599627370496 0 * valQ s m e| ≤ 2 ^ (1022 : ℤ) := by
+    rw [hQ, abs_mul, eK1]
+    apply mul_le_mul _ bx (abs_nonneg _) (by positivity)
+    rw [abs_of_pos (by norm_num)]; norm_num
+  have rL := abs_rn_le_pow hr hem bL
+  have rR := abs_rn_le_pow hr hem bR
+  have hK1 : (2 : ℚ) ^ (1022 : ℤ) ≤ Lmax binary64 := le_trans (zpow_le_zpow_right₀ (by norm_num) (by norm_num)) pow1023_le_Lmaxf64
+  have fL := mul_finite binary64 hf 4841369599423283201 x false s 4503599627370497 m 0 e dP dx (le_trans rL hK1)
+  have fR := mul_finite binary64 hf 4841369599423283200 x false s 4503599627370496 m 0 e dQ dx (le_trans rR hK1)
+  obtain ⟨sL, mL, eL, dL⟩ := finite_decode binary64 _ fL
+  obtain ⟨sR, mR, eR, dR⟩ := finite_decode binary64 _ fR
+  have vL := mul_correct binary64 hf _ x false s 4503599627370497 m 0 e dP dx fL
+  have vR := mul_correct binary64 hf _ x false s 4503599627370496 m 0 e dQ dx fR
+  have eL' : valQ sL mL eL = rne (qf binary64 hf.hp) (valQ false 4503599627370497 0 * valQ s m e) := by
+    have := toQ_fin binary64 _ sL mL eL dL; rw [vL] at this; exact (Option.some.inj this).symm
+  have eR' : valQ sR mR eR = rne (qf binary64 hf.hp) (valQ false 4503599627370496 0 * valQ s m e) := by
+    have := toQ_fin binary64 _ sR mR eR dR; rw [vR] at this; exact (Option.some.inj this).symm
+  have bD : |valQ sL mL eL - valQ sR mR eR| ≤ 2 ^ (1023 : ℤ) := by
+    rw [eL', eR']
+    have eK : (2 : ℚ) ^ (1023 : ℤ) = 2 ^ (1022 : ℤ) + 2 ^ (1022 : ℤ) := by
+      rw [show (1023 : ℤ) = 1022 + 1 by norm_num, zpow_add₀ (by norm_num : (2 : ℚ) ≠ 0), zpow_one]; ring
+    rw [eK]
+    exact le_trans (abs_sub _ _) (add_le_add rL rR)
+  have fD := sub_finite binary64 hf _ _ sL sR mL mR eL eR dL dR (le_trans (abs_rn_le_pow hr hemK bD) pow1023_le_Lmaxf64)
+  exact is_power_of_two_bit_exact_f64 lib x s m e dx nm fL fR fD
+
+
 end FAVerif.Props.C11
